@@ -386,10 +386,12 @@ func (r *runtime) Close(ctx context.Context) error {
 // Note: it also marks the internal `closed` field
 func (r *runtime) CloseWithExitCode(ctx context.Context, exitCode uint32) error {
 	closed := uint64(1) + uint64(exitCode)<<32 // Store exitCode as high-order bits.
+	// Close the store before publishing the closed word: the store lock serialises concurrent closers, so
+	// that nobody can observe a closed runtime (or return from Close) while its modules are still open.
+	err := r.store.CloseWithExitCode(ctx, exitCode)
 	if !r.closed.CompareAndSwap(0, closed) {
 		return nil
 	}
-	err := r.store.CloseWithExitCode(ctx, exitCode)
 	if r.cache == nil {
 		// Close the engine if the cache is not configured, which means that this engine is scoped in this runtime.
 		if errCloseEngine := r.store.Engine.Close(); errCloseEngine != nil {
